@@ -469,7 +469,11 @@ func tryConvertToInt(v any) (int, bool) {
 		return value, true
 	case int64:
 		return int(value), true
+	case uint64: // msgpack unsigned integer
+		return int(value), true
 	case float64:
+		return int(value), true
+	case float32: // msgpack 32-bit float
 		return int(value), true
 	case bool:
 		return 0, false
@@ -492,6 +496,10 @@ func tryConvertToFloat(v any) (float64, bool) {
 		return float64(value), true
 	case int64:
 		return float64(value), true
+	case uint64: // msgpack unsigned integer
+		return float64(value), true
+	case float32: // msgpack 32-bit float
+		return float64(value), true
 	case bool:
 		return 0, false
 	case string:
@@ -508,6 +516,14 @@ func tryConvertToFloat(v any) (float64, bool) {
 // their values, they compare on an equal footing.
 // This function can never fail, so it's not named "tryConvert" like the others.
 func convertToString(v any) string {
+	// a number renders the same however it was encoded: 1000000 is "1000000"
+	// whether it arrived as a JSON number (float64) or as a msgpack integer
+	switch value := v.(type) {
+	case float64:
+		return strconv.FormatFloat(value, 'f', -1, 64)
+	case float32:
+		return strconv.FormatFloat(float64(value), 'f', -1, 32)
+	}
 	return fmt.Sprintf("%v", v)
 }
 
